@@ -14,7 +14,7 @@ RULE = ("random arrays (1-4 dims, dtype bool/int/float/object) x per-dim index k
         "boolean mask x RHS {scalar,array,broadcastable array} of kind bool/int/float/str x cast x inplace x spelling "
         "{a[t]=v, put, put(axis=), put({dim:}), .loc, .ix, .iloc, put(indexing=position)}; block 'casttable' enumerates all 16 "
         "(array kind, RHS kind) pairs x scalar/array RHS x 3 index kinds completely. class = (array kind, rhs kind, rhs form, cast, inplace, "
-        "spelling, index kinds); trivial = nothing")
+        "spelling, index kinds); trivial = nothing. Also: the values setter (other arrays, and a view of the array's own buffer), labelled N-d masks listing the dimensions in another order")
 ANCHORS = ["bases._setitem", "dimarraycls._setvalues_ortho", "dimarraycls._setvalues_bool", "indexing._maybe_cast_type", "bases.__setitem__"]
 # entry points the workload calls itself; the other anchors are helpers behind them (counted as evidence only)
 ANCHORS_REQUIRED = ["bases.__setitem__"]
